@@ -117,6 +117,12 @@ func runABad(r *verifsim.Run) {
 	sc := genRecScenario(r, "C13")
 	c := &sc.Cfg
 	sc.Ev = nonOverlappingRequests(sc.Ev)
+	if c.Cont && r.Chance(1, 3) {
+		// storage failures on the continuous recorder too (its stop is issued on every bad frame)
+		for i, k := 0, r.Range(1, 4); i < k; i++ {
+			sc.Plans[zz.SinkCont].Add('X', r.Draw(12))
+		}
+	}
 	// border zeros on valid frames (must be accepted), multiple zeros on bad frames
 	for i := range sc.Ev {
 		e := &sc.Ev[i]
